@@ -16,7 +16,7 @@ def run(tier, seed):
                sfc_models.utils.TimeSeriesHolder.GenerateCSVtext, sfc_models.utils.TimeSeriesHolder.GetSeriesList)
     T = 90 if tier == "quick" else 300
     chk.bounds = {'stored series': 'symbolic int list, length 1..4', 'cutoff': 'None or 0..5 (argument or Model.TimeSeriesCutoff)',
-                  'calls': '1..3, caller mutating the returned list or not', 'series group': ['main', 'step', 'initial'],
+                  'calls': '1..3, caller mutating the returned list or not', 'series group': ['main', 'step', 'initial'], 'model horizon': 'Model.MaxTime 0..5 independent of the stored length (groups longer and shorter than the model horizon)',
                   'rendering': 'ragged lengths 0..3 per series, 1..3 repeated renders; every sequence of <= 4 renders interleaved over the three series groups (main, step trace, initial steady state); BaseSolver variable list with t at every position',
                   'per_condition_timeout_s': T}
     chk.assumptions = ['CrossHair models Python ints/lists/bools symbolically (z3); verdict "Confirmed over all paths" = exhaustive within the stated sizes']
